@@ -79,13 +79,18 @@ def NAMED(name):
     return ("named", name)
 
 
+def OPT(t):
+    """`None` or a value of type t."""
+    return ("opt", t)
+
+
 def prune(t):
     """Resolve type variables (deeply, so that resolved types can be compared with ==)."""
     while isinstance(t, Var) and t.ref is not None:
         t = t.ref
     if isinstance(t, Var):
         return t
-    if t[0] in ("list", "set"):
+    if t[0] in ("list", "set", "opt"):
         return (t[0], prune(t[1]))
     if t[0] == "tuple":
         return ("tuple", tuple(prune(x) for x in t[1]))
@@ -107,7 +112,7 @@ def unify(a, b):
         return True
     if a[0] != b[0]:
         return False
-    if a[0] in ("list", "set"):
+    if a[0] in ("list", "set", "opt"):
         return unify(a[1], b[1])
     if a[0] == "tuple":
         return len(a[1]) == len(b[1]) and all(unify(x, y) for x, y in zip(a[1], b[1]))
@@ -133,6 +138,8 @@ def lean_ty(t):
         return "String"
     if k in ("list", "set"):
         return f"(List {lean_ty(t[1])})"
+    if k == "opt":
+        return f"(Option {lean_ty(t[1])})"
     if k == "tuple":
         if len(t[1]) == 1:
             return lean_ty(t[1][0])
@@ -148,7 +155,7 @@ def tykey(t):
     t = prune(t)
     if isinstance(t, Var):
         return "?"
-    if t[0] in ("list", "set"):
+    if t[0] in ("list", "set", "opt"):
         return f"{t[0]}[{tykey(t[1])}]"
     if t[0] == "tuple":
         return "tuple[" + ",".join(tykey(x) for x in t[1]) + "]"
@@ -321,6 +328,8 @@ class Translator:
                 n = self.fresh()
                 self.frame().bind(n, f"{atom(code)}.mapM Py.natOfInt")
                 return n
+            if b[0] == "opt" and a[0] != "opt" and unify(v.ty, b[1]):
+                return f"(some {atom(code)})"
         if not unify(v.ty, ty):
             raise Outside(f"type mismatch: {tykey(v.ty)} where {tykey(ty)} is expected")
         return code
@@ -354,6 +363,8 @@ class Translator:
             return Val(f"({v} : Int)", INT)
         if isinstance(v, str):
             return Val('"' + v.replace("\\", "\\\\").replace('"', '\\"') + '"', STR)
+        if v is None:
+            return Val("none", OPT(Var()))
         raise Outside(f"constant {v!r}")
 
     def e_Tuple(self, n, env):
@@ -455,6 +466,12 @@ class Translator:
             ca = self.pure(a)
             cb = self.coerce(b, a.ty)
             return Val(f"(Py.setInter {atom(ca)} {atom(cb)})", a.ty)
+        if isinstance(op, ast.Mult) and not isinstance(ta, Var) and ta[0] == "list":
+            if not (isinstance(n.left, ast.List) and len(n.left.elts) == 1):
+                raise Outside("list repetition other than [e] * n")
+            e = self.expr(n.left.elts[0], env)
+            cnt = self.coerce(b, NAT)
+            return Val(f"(List.replicate {atom(cnt)} {atom(self.pure(e))} : {lean_ty_late(self, LIST(e.ty))})", LIST(e.ty))
         if isinstance(op, ast.Mult):
             t = self.numeric_join(a, b)
             ca, cb = self.coerce(a, t), self.coerce(b, t)
@@ -546,6 +563,10 @@ class Translator:
                     raise Outside(f"comparison of {tykey(a.ty)} with {tykey(b.ty)}")
                 ca, cb = a.code, b.code
             return Val(f"({ca} != {cb})" if neg else f"({ca} == {cb})", BOOL)
+        if isinstance(op, (ast.Is, ast.IsNot)):
+            if b.code != "none" or isinstance(ta, Var) or ta[0] != "opt":
+                raise Outside("`is` other than `<optional value> is None`")
+            return Val(f"{atom(a.code)}.isSome" if isinstance(op, ast.IsNot) else f"{atom(a.code)}.isNone", BOOL)
         if isinstance(op, (ast.In, ast.NotIn)):
             neg = isinstance(op, ast.NotIn)
             if isinstance(tb, Var) or tb[0] not in ("list", "set", "dict"):
@@ -1116,16 +1137,33 @@ class Translator:
             if isinstance(t, (ast.Tuple, ast.List)):
                 v = self.expr(s.value, env)
                 vt = prune(v.ty)
-                if isinstance(vt, Var) or vt[0] != "tuple" or len(vt[1]) != len(t.elts) or not all(isinstance(e, ast.Name) for e in t.elts):
+                if isinstance(vt, Var) or vt[0] != "tuple" or len(vt[1]) != len(t.elts):
                     # unpacking a list of known length is outside the subset
                     raise Outside(f"unpacking {ast.unparse(t)} from a {tykey(v.ty)}")
-                pat = self.join_pattern([e.id for e in t.elts])
+                if all(isinstance(e, ast.Name) for e in t.elts):
+                    pat = self.join_pattern([e.id for e in t.elts])
+                    if v.partial:
+                        fr.bind(pat, v.code)
+                    else:
+                        fr.let(pat, v.code)
+                    for e, ty in zip(t.elts, vt[1]):
+                        env[e.id] = ty
+                    return
+                # general targets: evaluate the right-hand side once, then assign the targets from left to right
+                tmps = [self.fresh("u") for _ in t.elts]
+                pat = "(" + ", ".join(tmps) + ")" if len(tmps) > 1 else tmps[0]
                 if v.partial:
                     fr.bind(pat, v.code)
                 else:
                     fr.let(pat, v.code)
-                for e, ty in zip(t.elts, vt[1]):
-                    env[e.id] = ty
+                env2 = dict(env)
+                for tmp, ty in zip(tmps, vt[1]):
+                    env2[tmp] = ty
+                for e, tmp in zip(t.elts, tmps):
+                    self.simple(ast.Assign(targets=[e], value=ast.Name(id=tmp, ctx=ast.Load())), env2)
+                for k_ in list(env2):
+                    if k_ not in tmps:
+                        env[k_] = env2[k_]
                 return
             if isinstance(t, ast.Subscript) and isinstance(t.value, ast.Name) and t.value.id in env:
                 nm = t.value.id
@@ -1134,6 +1172,11 @@ class Translator:
                     kc = self.coerce(self.expr(t.slice, env), ct[1])
                     vc = self.coerce(self.expr(s.value, env), ct[2])
                     fr.let(ident(nm), f"Py.dictSet {ident(nm)} {atom(kc)} {atom(vc)}")
+                    return
+                if not isinstance(ct, Var) and ct[0] == "list" and not isinstance(t.slice, ast.Slice):
+                    ic = self.coerce(self.expr(t.slice, env), INT)
+                    vc = self.coerce(self.expr(s.value, env), ct[1])
+                    self.frame().bind(ident(nm), f"Py.listSet {ident(nm)} {atom(ic)} {atom(vc)}")
                     return
                 raise Outside(f"item assignment on a {tykey(ct)}")
             raise Outside(f"assignment target {ast.unparse(t)}")
